@@ -456,6 +456,17 @@ func rolesFromCall(tb *TB, h Hit, der *ssa.Function) (derivRoles, string) {
 	return r, ""
 }
 
+// checkDigitsInt: the Digits → int accessor used on the way to the derivation is the identity conversion.
+func checkDigitsInt(c *Check, w *World, tb *TB, rule string) {
+	f := w.Func(OtpPath, "Digits.Int")
+	if f == nil {
+		return // accessor not used / removed: the argument terms then show the conversion directly
+	}
+	r := tb.Results(f, nil, nil, 0)
+	want := fmt.Sprintf("param(%s#0)", FuncName(f))
+	c.Decide(len(r) == 1 && r[0].String() == want, rule, FuncName(f), "digits-accessor", "Digits.Int() is the plain value-preserving conversion", "Digits.Int() returns "+clip(fmt.Sprint(r), 160)+", not the digits value itself: every code length is altered on the way to the derivation", w.Pos(f.Pos()))
+}
+
 // checkParamResolution (R.9): nil parameters mean the documented defaults; each field reaches its own role.
 func checkParamResolution(c *Check, w *World, tb *TB, rule string, entry *ssa.Function, h Hit, roles derivRoles, defName string, wantDigits, wantAlgo int64) {
 	fn := FuncName(entry)
@@ -541,6 +552,7 @@ func runC01(c *Check, w *World) {
 	c.Decide(h.Args[roles.Key].String() == wantKey, "R01.6", fn, "key-is-decoded-secret", "the derivation key is DecodeSecret(secret) unchanged", "the key handed to the derivation is "+clip(h.Args[roles.Key].String(), 160), w.InstrPos(h.Call))
 	c.Decide(h.Args[roles.Counter].String() == fmt.Sprintf("param(%s#%d)", fn, cp), "R01.5", fn, "counter-is-callers", "the derivation counter is the caller's counter unchanged", "the counter handed to the derivation is "+clip(h.Args[roles.Counter].String(), 160), w.InstrPos(h.Call))
 	checkParamResolution(c, w, tb, "R01.9", gen, h, roles, "DefaultHOTPParam", 6, 0)
+	checkDigitsInt(c, w, tb, "R01.9")
 	pipe := checkHOTPDerivation(c, w, tb, iv, ef, "R01", der, roles.terms(der), sent, 1, 10)
 	if pipe != nil && pipe.modT != nil {
 		checkModTable(c, w, "R01.1", strings.TrimPrefix(pipe.modT.Args[0].Sym, "otp."), 1, 10)
